@@ -255,20 +255,26 @@ def corr_worker(items, extra, progress):
 
     reqs, meta = [], []
     hist = Counter()
+    early = []
     for i, useed in enumerate(items):
         if i % 64 == 0 and progress.stop_requested():
             break
         progress(i)
         page, db, lim = corr_universe(useed)
         t = time.process_time()
-        out, parsed, trees = tc.expand_real(page, db, lim)
+        try:
+            out, parsed, trees = tc.expand_real(page, db, lim)
+        except Exception as e:  # noqa: BLE001  (parsing the page or a template raised: the property's own failure)
+            early.append({"why": f"expansion raised {type(e).__name__}: {e}", "page": page, "templates": db, "limit": lim})
+            hist["exception"] += 1
+            continue
         dt = time.process_time() - t
         hit = tc.LIMIT_HITS[0]
         reqs.append(tc.model_request(parsed, trees, lim if hit else 100000))
         meta.append((page, db, lim, out, hit, dt))
     progress(len(items))
     outs = Driver("templ").ask(reqs)
-    diffs, viol = [], []
+    diffs, viol = [], early
     for (page, db, lim, out, hit, dt), o in zip(meta, outs):
         hist["limit-hit" if hit else "no-limit-hit"] += 1
         if isinstance(out, tuple):
@@ -308,6 +314,89 @@ def correspondence(chk, n_total, nproc=12):
 
 
 # ----------------------------------------------------------------------------- main
+
+# ----------------------------------------------------------------------------- brace matching (Model/Braces.lean)
+
+BRACE_ALPHA = ["{", "{{", "{{{", "{{{{", "}", "}}", "}}}", "}}}}", "[[", "]]", "|", "a", "=", "<noinclude>x</noinclude>", "<includeonly>",
+               " ", "#if:", "b c", "{{{{{", "}}}}}", "\n", "</includeonly>"]
+
+
+def braces_worker(items, extra, progress):
+    """the real brace matcher (Parser.parse with the node constructors replaced by raw holders and optimize() off) vs the model."""
+    import itertools
+    import logging
+
+    from . import build_repo
+
+    build_repo.overlay_all()
+    logging.disable(logging.WARNING)
+    from mwlib.parser.templ import parser as P
+    from mwlib.parser.templ.scanner import Symbols, tokenize
+
+    from .common import Driver
+
+    class Raw(P.Parser):
+        def template_from_children(self, children):
+            return ("T", list(children))
+
+        def variable_from_children(self, children):
+            return ("V", list(children))
+
+    def cps(s):
+        return ".".join(str(ord(c)) for c in s)
+
+    def ser(n):
+        if isinstance(n, str):
+            return "S" + cps(n)
+        if isinstance(n, tuple):
+            return n[0] + "[" + " ".join(ser(c) for c in n[1]) + "]"
+        return "G[" + " ".join(ser(c) for c in n) + "]"
+
+    reqs, meta, viol, hist = [], [], [], Counter()
+    for i, it in enumerate(items):
+        if i % 512 == 0 and progress.stop_requested():
+            break
+        progress(i)
+        if isinstance(it, int):
+            rng = random.Random(it)
+            txt = "".join(rng.choice(BRACE_ALPHA) for _ in range(rng.randint(1, 12)))
+        else:
+            txt = "".join(BRACE_ALPHA[k] for k in it)
+        toks = []
+        for ty, t in tokenize(txt)[:-1]:
+            if ty == Symbols.bra_open:
+                toks.append("o%d" % len(t))
+            elif ty == Symbols.bra_close:
+                toks.append("c%d" % len(t))
+            elif ty == Symbols.noi:
+                toks.append("n")
+            elif ty == Symbols.link:
+                toks.append("[" if t == "[[" else "]")
+            else:
+                toks.append("t" + cps(t))
+            if ty in (Symbols.bra_open, Symbols.bra_close) and len(t) < 2:
+                viol.append({"why": "precondition: the tokenizer produced a run of braces shorter than 2 (hypothesis of "
+                             "c03_brace_matching_total_and_lossless)", "page": txt})
+        old = P.optimize
+        P.optimize = lambda x: x
+        try:
+            real = " ".join(ser(n) for n in Raw(txt).parse())
+        except Exception as e:  # noqa: BLE001
+            real = "error"
+            viol.append({"why": f"exception: {type(e).__name__}: {e} (brace matching)", "page": txt})
+        finally:
+            P.optimize = old
+        hist["brace-texts"] += 1
+        hist["brace-tokens-%d" % min(len(toks), 9)] += 1
+        reqs.append("braces " + " ".join(toks))
+        meta.append((txt, real))
+    progress(len(items))
+    diffs = []
+    for (txt, real), o in zip(meta, Driver("braces").ask(reqs)):
+        if real != o.strip():
+            diffs.append({"stream": "brace matching", "page": txt, "impl": real, "model": o})
+    return diffs, viol, dict(hist)
+
 
 def run_corpus(chk):
     """minimised past failures run first (each in the guarded runner: they may hang or crash)."""
@@ -358,7 +447,10 @@ def run(chk: common.Check):
         "insert_implicit_newlines, _expand) and nodes.pyx (Template, Variable, IfNode, IfEqNode, SwitchNode), tied to /repo by "
         "the correspondence run on this tree's compiled extensions",
         "translator: Gen/Magics.lean by introspection (inspect.signature) of the live resolver classes and node registry",
-        "the bodies of the individual magic words / parser functions, the brace parser (templ/parser.py) and the tokenizer are "
+        "hand-written model lean/MwVerif/Model/Braces.lean of the brace matcher of templ/parser.py (parse, parse_open_brace, "
+        "_handle_closing_braces_for_template_or_variable, _consume_closing_braces, link counting), tied by correspondence on all short and "
+        "random longer brace texts tokenized by the real tokenizer; what a template/parameter node is made of is abstract there",
+        "the bodies of the individual magic words / parser functions, argument splitting and the tokenizer are "
         "NOT modelled: they are covered by the exhaustive name x argument-count x shape run and the fuzz stream (real code, oracle)",
         "argument-value/name caching of ArgumentList and optimize() change only *where* the recursion limit strikes: outputs are "
         "compared exactly when the real run never hit the limit (model run without limit), else only for being strings",
@@ -370,6 +462,22 @@ def run(chk: common.Check):
     ncorr = 40000 if tier == "thorough" else 4000
     corpus_bad = run_corpus(chk)
     diffs, cviol, chist, ncorr = correspondence(chk, ncorr)
+
+    # --- brace matching: every text of <= 3 (thorough 4) lexemes, then random longer ones
+    import itertools
+
+    from . import guard
+    k = 4 if tier == "thorough" else 3
+    bitems = [t for n in range(1, k + 1) for t in itertools.product(range(len(BRACE_ALPHA)), repeat=n)]
+    bitems += [chk.seed * 10_000_000 + 4_000_000 + i for i in range(100000 if tier == "thorough" else 12000)]
+    rb, cb = guard.guarded_run(str(chk.mkscratch()), "harness.c03:braces_worker", bitems, nproc=16, hard_timeout=120)
+    bhist = Counter()
+    for d, v, h in rb:
+        diffs += d
+        cviol += v
+        bhist.update(h)
+    for item, kind, detail in cb:
+        cviol.append({"why": f"{kind}: {detail} (brace matching)", "page": repr(item)})
 
     # --- search on the real code
     rows, names, aliases = registered_names()
@@ -392,7 +500,8 @@ def run(chk: common.Check):
                 f"#expr: every operator of expr.py x {len(NUMS)} number shapes (unary, binary, #ifexpr); raw fuzz over the template alphabet. "
                 "correspondence: universes of 1-4 templates over words/numbers, positional/named/duplicate arguments, defaults, #if/#ifeq/"
                 "#switch, list markers, unbalanced braces, all call graphs incl. cycles, limits 2..100. non-trivial = distinct inputs",
-        "traces_validated_against_impl": ncorr,
+        "traces_validated_against_impl": ncorr + bhist.get("brace-texts", 0),
+        "brace_matching_histogram": dict(bhist),
         "correspondence_differences": len(diffs),
         "correspondence_histogram": dict(chist),
         "search_histogram": dict(shist),
